@@ -21,6 +21,7 @@ use scryer_prolog::{LeafAnswer, Machine, MachineBuilder};
 mod canon;
 mod fam;
 mod fam_c33;
+mod fam_c32;
 
 pub fn unescape(s: &str) -> String {
     let mut out = String::with_capacity(s.len());
